@@ -2940,11 +2940,13 @@ impl Interpreter {
             (new_env, Some(guard))
         };
 
-        // Set the generator's environment as the current environment
+        // Set the generator's environment as the current environment.
+        // The guard of a freshly created environment is held for the duration of this
+        // call only: afterwards the environment is reachable from the generator state
+        // (func_env / current_env are traced), and nothing would ever pop it from the
+        // interpreter's scope-guard stack.
         self.env = gen_env;
-        if let Some(guard) = env_guard {
-            self.push_env_guard(guard);
-        }
+        let _env_guard = env_guard;
 
         let vm_guard = self.heap.create_guard();
 
